@@ -1,5 +1,6 @@
 import XalanModel.C08.Options
 import XalanModel.C08.Html
+import XalanModel.C08.Utf8
 import XalanModel.Generated.C08_CallPoints
 import Driver.Util
 /-
@@ -63,7 +64,11 @@ def reply (l : Str) : String := "ok " ++ Driver.hexOfUnits l
 
 def runFormatter (f : Formatter) (evs : List Ev) (ns : List Str := []) : String :=
   match f with
-  | .xml c k r => if evs.all Ev.valid then reply (renderAll r (serialize cc c k evs)) else "ERR"
+  | .xml c k r =>
+    if evs.all Ev.valid && evs.all Ev.bulkValid && validUnits c.doctypeSystem && validUnits c.doctypePublic
+        && evs.all (Ev.representable r.maxChar) then
+      reply (renderAll r (serialize cc c k evs))
+    else "ERR"
   | .text enc =>
     match textMethodEnc XalanModel.Generated.C08.textReportsUnrepresentable (maxCharOf (if enc.isEmpty then utf8 else enc)) evs with
     | some t => reply t
@@ -172,6 +177,18 @@ def step (_ : Unit) : List String → Unit × String
         | _ => none
       let cfg : SerCfg := { xmlDecl := false }
       some (reply (renderAll {} (serialize cc cfg .dummy [.startElement (s "a") [], ev, .endElement (s "a")])))).getD "bad")
+  | ["u8", kind, run] =>
+    -- XalanUTF8Writer alone: bytes of a run through the bulk write, writeSafe, or one position at a time
+    ((), match str run with
+      | none => "bad"
+      | some us =>
+        let bytes : Option (List Nat) :=
+          if kind = "bulk" then Utf8.bulkWrite XalanModel.Generated.C08.utf8BulkAdvances us
+          else if kind = "safe" then Utf8.bulkWrite XalanModel.Generated.C08.utf8SafeAdvances us
+          else Utf8.unitwiseWrite us
+        match bytes with
+        | some b => reply b
+        | none => "ERR")
   | _ => ((), "bad")
 
 end Driver.C08
